@@ -15,6 +15,7 @@ import (
 	"net/netip"
 	"os"
 	"path/filepath"
+	"runtime"
 	"strings"
 	"sync"
 	"time"
@@ -397,8 +398,15 @@ func genHandle(r *rand.Rand, thorough bool, emit func(c, cat string)) {
 
 // prefetchfw: a cache hit in the last quarter of the entry's lifetime; what does the background refresh send upstream?
 // case : ecs=<0|1> addr=<…> q=<name>,<type>,<class>        out : cached=<0|1> rcode=<n> fw=<k>:<hex>…
+//
+//	procs=1 runs the case on one P: the goroutine that performs the refresh then starts only after the handler
+//	has returned and the caller has released the request (the schedule a busy server produces).
 func runPrefetchFw(cs string) string {
 	m := kv(cs)
+	if m["procs"] == "1" {
+		old := runtime.GOMAXPROCS(1)
+		defer runtime.GOMAXPROCS(old)
+	}
 	cfg := &router.Config{}
 	cfg.ECS.Enabled = m["ecs"] == "1"
 	cfg.Upstreams = []router.UpstreamConfig{{Tag: "u0", Addr: "udp://127.0.0.1:9"}}
@@ -415,7 +423,9 @@ func runPrefetchFw(cs string) string {
 	typ, class := uint16(atoi(qf[1])), uint16(atoi(qf[2]))
 	var log []string
 	reply := fmt.Sprintf("h=1,1,0,0,0,1,1,0,0,0 q=%s,%d,%d an=%s,1,%d,300,a,0a000001", hexs(lname), typ, class, hexs(lname), class)
-	v.SetUpstream("u0", &fakeUp{k: 0, reply: reply, log: &log})
+	// what the upstream returns for the refresh carries an OPT with a COOKIE and an ECS option
+	refreshed := reply + " ar=-,41,4096,0,raw,000a00100102030405060708a1a2a3a4a5a6a7a80008000700011818c63364"
+	v.SetUpstream("u0", &fakeUp{k: 0, reply: refreshed, log: &log})
 	remote := parseAddr(m["addr"])
 	// an entry with 2 s of its 12 s left
 	lq := dnsmsg.NewQuestion()
@@ -457,7 +467,37 @@ func runPrefetchFw(cs string) string {
 		time.Sleep(10 * time.Millisecond)
 	}
 	fws = append(fws, log...)
-	out := fmt.Sprintf("cached=%s rcode=%d", b2s(cached), rcode)
+	// after the refresh: a client without EDNS0 and one with it ask again (served from the refreshed entry)
+	after := ""
+	for _, withOpt := range []bool{false, true} {
+		q2 := parseMsg(fmt.Sprintf("h=78,0,0,0,0,1,0,0,0,0 q=%s,%d,%d", hexs(name), typ, class))
+		if withOpt {
+			o := dnsmsg.NewRaw()
+			o.Name = nameBuf([]byte{0})
+			o.Type, o.Class = dnsmsg.TypeOPT, 1232
+			q2.Additionals = append(q2.Additionals, o)
+		}
+		r2, _, _, _ := v.Handle(q2, remote, netip.AddrPort{})
+		dnsmsg.ReleaseMsg(q2)
+		nopt, dlen := 0, 0
+		if r2 != nil {
+			for _, rr := range r2.Additionals {
+				if rr.Hdr().Type == dnsmsg.TypeOPT {
+					nopt++
+					if raw, ok := rr.(*dnsmsg.RawResource); ok {
+						dlen += len(raw.Data)
+					}
+				}
+			}
+			dnsmsg.ReleaseMsg(r2)
+		}
+		if withOpt {
+			after += fmt.Sprintf(",%d,%d", nopt, dlen)
+		} else {
+			after += fmt.Sprint(nopt)
+		}
+	}
+	out := fmt.Sprintf("cached=%s rcode=%d after=%s", b2s(cached), rcode, after)
 	if !cached {
 		// the misses before the entry became visible were forwarded too; they are not refreshes
 		return out
@@ -493,7 +533,7 @@ func genPrefetchFw(r *rand.Rand, thorough bool, emit func(c, cat string)) {
 			addr = "none"
 		}
 		name := mixCase(r, handleNames[r.Intn(len(handleNames))])
-		emit(fmt.Sprintf("ecs=%d addr=%s q=%s,%d,1", (i/4+1)%2, addr, hexs(name), []int{1, 28}[r.Intn(2)]), "addr"+addr[:1])
+		emit(fmt.Sprintf("ecs=%d addr=%s q=%s,%d,1 procs=%d", (i/4+1)%2, addr, hexs(name), []int{1, 28}[r.Intn(2)], (i/2)%2), "addr"+addr[:1])
 	}
 }
 
